@@ -17,6 +17,7 @@ import (
 	"context"
 	"fmt"
 	"math"
+	"regexp"
 	"sort"
 	"strconv"
 	"strings"
@@ -1229,14 +1230,29 @@ func reorderKey(u1, u2 *descriptorpb.FileDescriptorProto, n1 *ast.FileNode) stri
 	return base + "unstable-sort"
 }
 
-// anyURLDropped: the input has more `[prefix/type]` references than the output.
+// anyURLDropped reports whether `[prefix/type]` references of the input are missing from the output and every
+// missing one has the KNOWN trigger shape of the open finding: the reference names the only field of a message
+// literal and its value is a scalar (such a literal is written on one line through writeFieldReference; it never
+// links).  A reference in front of a message or list value that loses its prefix is not that finding.
+var urlPrefixRe = regexp.MustCompile(`\[[^\]/=;{}]*/`)
+
 func anyURLDropped(a, b *ast.FileNode) bool {
-	count := func(f *ast.FileNode) int {
-		n := 0
+	type ref struct {
+		key    string
+		scalar bool
+	}
+	collect := func(f *ast.FileNode) []ref {
+		var out []ref
 		var rec func(ast.Node)
 		rec = func(x ast.Node) {
-			if fr, ok := x.(*ast.FieldReferenceNode); ok && fr.URLPrefix != nil {
-				n++
+			if mf, ok := x.(*ast.MessageFieldNode); ok && mf.Name != nil && mf.Name.URLPrefix != nil {
+				scalar := true
+				switch mf.Val.(type) {
+				case *ast.MessageLiteralNode, *ast.ArrayLiteralNode:
+					scalar = false
+				}
+				// nested references are judged on their own: compare the value with every URL prefix removed
+				out = append(out, ref{key: canonFieldRef(mf.Name) + "=" + urlPrefixRe.ReplaceAllString(canonValue(mf.Val), "["), scalar: scalar})
 			}
 			if cn, ok := x.(ast.CompositeNode); ok {
 				for _, ch := range cn.Children() {
@@ -1245,9 +1261,24 @@ func anyURLDropped(a, b *ast.FileNode) bool {
 			}
 		}
 		rec(f)
-		return n
+		return out
 	}
-	return count(a) > count(b)
+	left := map[string]int{}
+	for _, r := range collect(b) {
+		left[r.key]++
+	}
+	dropped, allScalar := 0, true
+	for _, r := range collect(a) {
+		if left[r.key] > 0 {
+			left[r.key]--
+			continue
+		}
+		dropped++
+		if !r.scalar {
+			allScalar = false
+		}
+	}
+	return dropped > 0 && allScalar
 }
 
 func detBytes(m proto.Message) []byte {
